@@ -56,6 +56,10 @@ func kindOf(t types.Type) (kindInfo, bool) {
 		return kindInfo{w: 32}, true
 	case types.Float64, types.UntypedFloat:
 		return kindInfo{w: 64, float: true}, true
+	case types.Float32:
+		// conversions only: a symbolic float32 is the float64 term it widens
+		// to; arithmetic in float32 is not encoded (see symBinop)
+		return kindInfo{w: 32, float: true}, true
 	}
 	return kindInfo{}, false
 }
@@ -91,6 +95,8 @@ func toTerm(v value) *Term {
 		return mkBV(64, uint64(v))
 	case float64:
 		return mkFP(v)
+	case float32:
+		return mkFP(float64(v))
 	}
 	panic(pathAbort{abUnsupported, fmt.Sprintf("toTerm: cannot lift %T", v)})
 }
@@ -131,6 +137,8 @@ func lower(tm *Term, t types.Type) value {
 		return uintptr(tm.val)
 	case types.Float64, types.UntypedFloat:
 		return math.Float64frombits(tm.val)
+	case types.Float32:
+		return float32(math.Float64frombits(tm.val))
 	}
 	return tm
 }
@@ -174,6 +182,12 @@ func symBinop(fr *frame, op token.Token, t types.Type, x, y value, pos token.Pos
 			return bres(tOr(a, b))
 		}
 		unsupported("bool binop %s", op)
+	}
+	if ki.float && ki.w == 32 {
+		switch op {
+		case token.ADD, token.SUB, token.MUL, token.QUO:
+			unsupported("symbolic float32 arithmetic")
+		}
 	}
 	if ki.float {
 		switch op {
@@ -317,6 +331,9 @@ func symConvNumeric(dst, src types.Type, x *Term) value {
 	case ks.boolean || kd.boolean:
 		return x
 	case ks.float && kd.float:
+		if kd.w == 32 && ks.w == 64 {
+			return mk("fp.round32", fp64Sort, x)
+		}
 		return x
 	case ks.float: // float -> int
 		if kd.signed {
@@ -324,10 +341,17 @@ func symConvNumeric(dst, src types.Type, x *Term) value {
 		}
 		return lower(mk("fp.to_ubv", bvSort(kd.w), x), dst)
 	case kd.float: // int -> float
+		var r *Term
 		if ks.signed {
-			return lower(mk("to_fp_s", fp64Sort, x), dst)
+			r = mk("to_fp_s", fp64Sort, x)
+		} else {
+			r = mk("to_fp_u", fp64Sort, x)
 		}
-		return lower(mk("to_fp_u", fp64Sort, x), dst)
+		if kd.w == 32 {
+			// (exact for |x| < 2^53; beyond that the double rounding may differ from Go's single one)
+			return mk("fp.round32", fp64Sort, r)
+		}
+		return lower(r, dst)
 	}
 	// int -> int
 	switch {
